@@ -178,6 +178,11 @@ def run_case(case, ctx):
     db.reset_counts()
     if kind == "commit_write":
         db.fail_write_at = crash["n"]
+        if crash.get("wexc") == "keyerror":
+            from vt.monitor.db import InjectedKeyError
+
+            db.fail_write_exc = InjectedKeyError
+            ctx.count("commit_write_fails_with_keyerror")
 
     def block():
         with t.squash_changes() as b:
@@ -470,6 +475,9 @@ def crash_points(base, rnd, commit_writes):
     if not base["prune"] and base["pre"]:
         yield {"kind": "reroot_old", "at": rnd.randint(0, n), "pick": rnd.randrange(1000)}
     yield {"kind": "reroot_missing"}
+    yield {"kind": "reroot_missing", "idle": True}      # nothing but the assignment happens in the block
+    if not base["prune"] and base["pre"]:
+        yield {"kind": "reroot_old", "at": 0, "pick": rnd.randrange(1000), "idle": True}
     if not base["prune"] and base["post"]:
         # an outer write while the block is open, with the batch as generated and with an idle batch
         yield {"kind": "outer_write", "at": rnd.randint(0, n), "op": base["post"][0]}
@@ -491,6 +499,8 @@ def crash_points(base, rnd, commit_writes):
     if not base["prune"]:
         for w in range(1, commit_writes + 1):
             yield {"kind": "commit_write", "n": w}
+            if w % 2 == 0 or w == commit_writes:
+                yield {"kind": "commit_write", "n": w, "wexc": "keyerror"}
 
 
 def run_shard(ctx):
